@@ -1,7 +1,7 @@
 // target: src/sync.rs
 // labels: store.entry_put.head-is-max store.remove_replica.heads-of-ns-gone-others-kept store.remove_replica.other-heads-unchanged
 // tier: quick
-// bound: two authors, three keys, timestamps in {1,2,3}, every sequence of up to three inserts; then removal and re-creation of the
+// bound: two authors, three keys, timestamps in {1,2,3}, every sequence of up to three inserts, in a store that also holds a second, later-sorting document with other authors; then removal and re-creation of the
 // document. Checks C13 / C16: the reported head of each author is the greatest timestamp among the entries held, and no head
 // survives removing the document.
 #[cfg(test)]
@@ -17,6 +17,18 @@ mod verif_rp_c13_heads {
         let mut store = Store::memory();
         drop(store.new_replica(ns.clone()).unwrap());
         store.close_replica(ns.id());
+        // a second document in the same store whose id sorts after the first one, with its own authors: its heads must never show up
+        let ns2 = loop { let s = NamespaceSecret::new(&mut rng); if s.id() > ns.id() { break s; } };
+        let foreign = [Author::new(&mut rng), Author::new(&mut rng)];
+        {
+            let mut r2 = store.new_replica(ns2.clone()).unwrap();
+            for (i, a) in foreign.iter().enumerate() {
+                let e = SignedEntry::from_parts(&ns2, a, b"f", Record { hash: Hash::new(b"x"), len: 1, timestamp: base + 50 + i as u64 });
+                r2.insert_remote_entry(e, [1u8; 32], ContentStatus::Missing).await.unwrap();
+            }
+            drop(r2);
+            store.close_replica(ns2.id());
+        }
         let keys: [&[u8]; 3] = [b"k1", b"k2", b"k"];
         let mut univ = vec![];
         for ai in 0..2usize { for k in 0..3usize { for ts in [1u64, 2, 3] { univ.push((ai, k, ts)); } } }
@@ -35,6 +47,7 @@ mod verif_rp_c13_heads {
             let mut held: Vec<(AuthorId, u64)> = vec![];
             for a in &authors { for k in keys { if let Some(e) = store.get_exact(ns.id(), a.id(), k, true).unwrap() { held.push((a.id(), e.timestamp())); } } }
             let heads: Vec<(AuthorId, u64)> = store.get_latest_for_each_author(ns.id()).unwrap().map(|x| { let (a, t, _k) = x.unwrap(); (a, t) }).collect();
+            assert!(heads.iter().all(|(x, _)| foreign.iter().all(|f| f.id() != *x)), "WITNESS the heads reported for a document contain an author of another document of the same store (after {:?})", seq);
             for a in &authors {
                 let want = held.iter().filter(|(x, _)| *x == a.id()).map(|(_, t)| *t).max();
                 let got = heads.iter().find(|(x, _)| *x == a.id()).map(|(_, t)| *t);
